@@ -458,3 +458,53 @@ func solveAll(jobs []job, opts solveOpts, workers int) {
 	close(ch)
 	wg.Wait()
 }
+
+// crossCheck re-submits every discharged obligation to two other solvers. unsat = agreement, unknown/timeout = no
+// information, sat = disagreement (reported by the caller as an engine error).
+func crossCheck(jobs []job, dir string, workers int) (map[string]int, []string) {
+	counts := map[string]int{}
+	var dis []string
+	var mu sync.Mutex
+	ch := make(chan job)
+	var wg sync.WaitGroup
+	for w := 0; w < workers; w++ {
+		wg.Add(1)
+		go func() {
+			defer wg.Done()
+			for j := range ch {
+				base := filepath.Join(dir, fmt.Sprintf("x%05d", j.idx))
+				zf := base + ".smt2"
+				cf := base + ".cvc5.smt2"
+				os.WriteFile(zf, []byte(j.c.script(j.o, 3000, "")), 0o644)
+				os.WriteFile(cf, []byte(j.c.script(j.o, 3000, "ALL")), 0o644)
+				r1 := runSolver("cvc5", []string{"--tlimit=3000", "--lang=smt2"}, cf, 3*time.Second)
+				r2 := runSolver("z3", []string{"-T:3"}, zf, 3*time.Second)
+				os.Remove(zf)
+				os.Remove(cf)
+				mu.Lock()
+				for _, r := range []solverRun{r1, r2} {
+					name := strings.Fields(r.solver)[0]
+					switch r.verdict {
+					case "unsat":
+						counts[name+":agree"]++
+					case "sat":
+						counts[name+":DISAGREE"]++
+						dis = append(dis, j.o.Name+" ("+name+" answers sat)")
+					default:
+						counts[name+":no-answer"]++
+					}
+				}
+				mu.Unlock()
+			}
+		}()
+	}
+	for _, j := range jobs {
+		if j.o.Canary || j.o.Status != "discharged" {
+			continue
+		}
+		ch <- j
+	}
+	close(ch)
+	wg.Wait()
+	return counts, dis
+}
